@@ -100,6 +100,13 @@ impl SymbolTable {
         self.contexts.pop().unwrap().max_size()
     }
 
+    /// Leaves every function context and every block scope that is still open,
+    /// keeping what was declared in the outermost scope of the global context.
+    pub fn reset_to_global(&mut self) {
+        self.contexts.truncate(1);
+        self.contexts[0].symbols.truncate(1);
+    }
+
     /// Returns true if the current context is a local (function) context
     pub fn in_function(&self) -> bool {
         self.contexts.len() > 1
